@@ -123,6 +123,14 @@ def r2(ctx, F):
     entries = fl.calls(lambda c: c.endswith('::entry'))
     pushes = fl.calls(lambda c: c.endswith('Vec::<T, A>::push'))
     nexts = fl.calls_to('std::iter::Iterator::next')
+    # the indexing loop is the one that pushes into the slot obtained from `entry(..)`; other loops / iterator tests in the
+    # function (assertions over the finished index, statistics) are not part of the rule
+    if len(entries) == 1:
+        pushes = [(pb_, pt_) for pb_, pt_ in pushes if any(o.kind == 'call' and o.bb == entries[0][0] for o in fl.origins(pt_['args'][0]))] or pushes
+    if len(pushes) == 1 and len(nexts) > 1:
+        lp = cfg.loops()
+        inner = [h for h, bl in lp.items() if pushes[0][0] in bl]
+        nexts = [(nb_, nt_) for nb_, nt_ in nexts if any(nb_ in lp[h] for h in inner)] or nexts
     ok = len(entries) == 1 and len(pushes) == 1 and len(nexts) == 1
     why = ''
     if ok:
